@@ -71,7 +71,12 @@ def history(r, ctx, suite, cic, mic, n):
                 ic = r.choice([0, 4294967295, 4294967294])
             if ic > 4294967295:
                 ic = 4294967295
-            b = peer.ggc(plain_apdu(kind), ic=ic) if kind != 20 else None
+            if r.random() < .15:
+                # exception-response: invocation-counter error reporting some counter (lower, equal or higher than the client's)
+                plain = b"\xd8\x01\x06" + r.choice([0, 1, 5, cic, cic + 1, cic + 1000, 4294967295]).to_bytes(4, "big")
+            else:
+                plain = plain_apdu(kind)
+            b = peer.ggc(plain, ic=ic)
             recorded.append(b)
             ops.append([1, b])
             last = max(last, ic)       # an upper bound on what may have been accepted; only used to aim the next counters
